@@ -324,6 +324,7 @@ type ctxTrack struct {
 	sawNeg     bool
 	repeated   bool
 	disturbed  bool // a pause/start/update happened between two batches
+	restarted  bool // lived through a zero-height restart of the chain
 }
 
 type c10 struct {
@@ -369,7 +370,7 @@ func (o *c10) startBatch(id string, h int64, at types.RequestContext, sigKind st
 	}
 	t.batches = append(t.batches, h)
 	t.timeoutAt, t.freqAt, t.stable, t.disturbed = at.Timeout, at.RepeatedFrequency, true, false
-	if !t.repeated && len(t.batches) > 1 {
+	if !t.repeated && len(t.batches) > 1 && !t.restarted {
 		o.fail("c10:oneshot:"+sigKind, "one-shot context %s got batch number %d", short(id), len(t.batches))
 	}
 	if t.repeated && !t.sawNeg && int64(len(t.batches)) > t.maxTotal {
@@ -452,8 +453,11 @@ func (o *c10) Step(r *StepRec) []Violation {
 	}
 	if a.Kind == KRestart {
 		// the restart ends every batch in flight (fees refunded, no expiry left): the next batch may start at once
+		// (a one-shot context whose batch was cancelled by the restart may be started again and then issues
+		// that batch anew: C19 says the restart leaves every context paused, C10 does not speak of restarts;
+		// the total of a repeated context, which survives the restart with the batch counter, still binds)
 		for _, t := range o.tr {
-			t.stable, t.disturbed, t.timeoutAt = false, true, 0
+			t.stable, t.disturbed, t.timeoutAt, t.restarted = false, true, 0, true
 		}
 	}
 	if targetsCtx(a) {
